@@ -106,6 +106,10 @@ func init() {
 			// non-ASCII text on the line where the input ends too early; input ending too early right after a newline
 			invalid = append(invalid, "set_tx_meta(\"clé\", \"é\"", "vars {\n  \"déjà vu\"\n}\nsend [USD 1] (\n source = @a\n destination = @b\n)", "send [USD 1] (\n  source = @a\n  destination = @b\n", "save [USD 1] from\n", "vars {\n  account $a\n",
 				"set_tx_meta(\"日本\", \n", "send [USD 1] (\r\n  source = @é\r\n")
+			// an error on the line whose index is 9, 99, 999 (the line number gains a digit on the next line) with lines after it
+			for _, n := range []int{9, 10, 99, 100, 999, 1000} {
+				invalid = append(invalid, strings.Repeat("\n", n)+") stray\nsend [USD 1] (\n source = @a\n destination = @b\n)\n")
+			}
 			v0 := validTemplates[0]
 			invalid = append(invalid, ")"+v0, "#"+v0, "é "+v0, "=\n", ")", "#", v0+" )", v0+"\n#", "\n)"+v0, "]"+v0, "1"+v0)
 			for _, t := range invalid {
